@@ -401,17 +401,25 @@ def kernel_cases(case):
 
 
 def schema_probe():
-    """accept / refuse of small matching-cost configurations, in a fixed order (census first: in a new process it
-    is the first class to touch the shared class-level schema dictionary)"""
+    """accept / refuse of small matching-cost configurations, in a fixed order: first the classes that do NOT rewrite
+    the shared class-level schema dictionary on every key (sad / ssd / zncc, probed on every shared key: window_size,
+    subpix), then census (which rewrites window_size), then the first ones again.  In a new process the first block runs
+    before any census object exists; at the end of the process every class has been instantiated many times: the two
+    lists must be equal"""
     from pandora import matching_cost
+    probes = [("sad", {"window_size": 4}), ("sad", {"window_size": 7}), ("sad", {"subpix": 8}), ("sad", {"subpix": 6}),
+              ("ssd", {"subpix": 16}), ("ssd", {"window_size": 1}), ("zncc", {"subpix": 3}), ("zncc", {"window_size": 2}),
+              ("zncc", {"window_size": 9}), ("zncc", {"subpix": 8}),
+              ("census", {"window_size": 3}), ("census", {"window_size": 7}), ("census", {"window_size": 4}),
+              ("census", {"window_size": 5}), ("census", {"window_size": 9}), ("census", {"subpix": 8}),
+              ("sad", {"subpix": 8}), ("sad", {"window_size": 7}), ("zncc", {"window_size": 9}), ("ssd", {"subpix": 16})]
     out = []
-    for method, ws in [("census", 3), ("census", 7), ("census", 4), ("sad", 4), ("sad", 7), ("zncc", 2), ("zncc", 9),
-                       ("ssd", 1), ("census", 5), ("census", 9)]:
+    for method, extra in probes:
         try:
-            matching_cost.AbstractMatchingCost(matching_cost_method=method, window_size=ws)
-            out.append([method, ws, "accepted"])
+            matching_cost.AbstractMatchingCost(matching_cost_method=method, **extra)
+            out.append([method, json.dumps(extra, sort_keys=True), "accepted"])
         except Exception as exc:  # pylint: disable=broad-except
-            out.append([method, ws, "refused:" + type(exc).__name__])
+            out.append([method, json.dumps(extra, sort_keys=True), "refused:" + type(exc).__name__])
     return out
 
 
